@@ -48,6 +48,12 @@ def replay (j : Json) : R Verdict := do
         s!"D7 {survivors} background process(es) left behind by children that exited normally are still alive after the run"
       else s!"{survivors} objective-function process(es) of family {family} still alive after cambrian returned: {(fieldD obs "survivors").compress}"
     pf := ("C07", what) :: pf
+  -- C06: after a child has failed, the evaluations in flight are told to abort: for children that means they are killed
+  match (fieldD obs "aliveAfterFailure").getNat?.toOption with
+  | some k => if family == "failure" && k > 0 then
+      pf := ("C06", s!"{k} objective-function process(es) still alive 400 ms after a sibling failed: the evaluations in flight were not ended") ::
+            ("C04", s!"{k} process(es) still alive after the run was told to stop by a failure") :: pf
+  | none => pure ()
   -- exit status class
   let okExit := exitCode == some 0
   match (fieldD exp "exit").getStr?.toOption with
@@ -91,7 +97,7 @@ def replay (j : Json) : R Verdict := do
     if starts.length != n then
       let p := if n == 0 then "C16" else "C03"
       pf := (p, s!"{starts.length} evaluations were started, expected {n} ({family})") :: pf
-      if family == "cli-invalid" && (fieldD exp "which").getNat?.toOption.getD 9 ∈ [4, 5, 6] then
+      if family == "cli-invalid" && (fieldD exp "which").getNat?.toOption.getD 99 ∈ [4, 5, 6, 9] then
         pf := ("C11", "an evaluation was started although the initial guess is invalid") :: pf
   | none => pure ()
   match optVal opts "-n" with
@@ -136,7 +142,7 @@ def replay (j : Json) : R Verdict := do
     let exitSeeds := exits.filterMap (fun e => (fieldD e "seed").getNat?.toOption)
     let planSeeds := fieldD (fieldD j "plan") "seeds"
     for sd in seeds do
-      let slow := !(fieldD planSeeds (toString sd)).isNull
+      let slow := !(fieldD planSeeds (toString sd)).isNull && (fieldD (fieldD planSeeds (toString sd)) "medium").getBool?.toOption != some true
       if !slow && !exitSeeds.contains sd then pf := ("C07", s!"evaluation {sd} finished in time but never reached its exit (killed?)") :: pf
   -- L9: the decision logic
   let which := (fieldD exp "which").getNat?.toOption.getD 99
